@@ -163,13 +163,18 @@ histories, failing calls included.  This is what makes `shift_adds` apply to eve
 of every reachable state. -/
 theorem trackers_invariant (dev : Device) (nQ : Nat) (s : SeqState) (hr : C02.Reach dev nQ s) :
     RefsOk s := by
-  obtain ⟨ops, rfl⟩ := hr
-  have key : ∀ (ops : List Op) (s : SeqState), RefsOk s → RefsOk (run s ops) := by
-    intro ops
-    induction ops with
+  obtain ⟨evs, rfl⟩ := hr
+  have key : ∀ (evs : List Ev) (s : SeqState), RefsOk s → RefsOk (runEv s evs) := by
+    intro evs
+    induction evs with
     | nil => intro s h; exact h
-    | cons op rest ih => intro s h; exact ih _ (stepRaw_refs s op h)
-  exact key ops _ (by intro p hp; simp [SeqState.init] at hp)
+    | cons ev rest ih =>
+      intro s h
+      refine ih _ ?_
+      cases ev with
+      | call op => exact stepRaw_refs s op h
+      | oracle n d du fs fe => exact h
+  exact key evs _ (by intro p hp; simp [SeqState.init] at hp)
 
 theorem find_map_same (refs : List (Basis × List QRef)) (b : Basis) (l : List QRef)
     (h : (refs.find? (·.1 == b)).isSome = true) :
